@@ -256,13 +256,17 @@ pub fn get_navigation_node_from_braille_position(mathml: Element, position: usiz
     // save the current highlight state, set the state to be the end points so we can find the braille, then restore the state
     // FIX: this can fail if there is 8-dot braille
     use crate::interface::{get_preference, set_preference};
+    if mathml.children().is_empty() {
+        bail!("MathML has not been set -- can't find a navigation node");
+    }
     let saved_highlight_style = get_preference("BrailleNavHighlight".to_string()).unwrap();
     set_preference("BrailleNavHighlight".to_string(), "EndPoints".to_string()).unwrap();
 
     N_PROBES.with(|n| {*n.borrow_mut() = 0});
     // dive into the child of the <math> element (should only be one)
-    let search_state = find_navigation_node(mathml, as_element(mathml.children()[0]), position)?;
+    let search_state = find_navigation_node(mathml, as_element(mathml.children()[0]), position);
     set_preference("BrailleNavHighlight".to_string(), saved_highlight_style.to_string()).unwrap();
+    let search_state = search_state?;       // only propagate an error after the highlight style is restored
 
     // we know the attr value exists because it was found internally
     // FIX: what should be done if we never did the search?
